@@ -174,7 +174,9 @@ def directions(tier, seed):
 
 
 CTORS = [('PQ', '-', '-'), ('PointDir', '-', '-'),
-         ('Planes', 'PN', 'pi/2'), ('Planes', 'vec4', '0.7'), ('Planes', 'vec4', 'pi/2'), ('Planes', 'PN', '0.7')]
+         ('Planes', 'PN', 'pi/2'), ('Planes', 'vec4', '0.7'), ('Planes', 'vec4', 'pi/2'), ('Planes', 'PN', '0.7'),
+         # one plane as an object, the other as coefficients (array, list): the two arguments are converted independently
+         ('Planes', 'PN+vec4', '0.7'), ('Planes', 'list+PN', 'pi/2')]
 
 
 def pair_ctors(tier):
@@ -292,7 +294,16 @@ def build(ld):
         ok, L = call(Plucker.PointDir, ld.P.copy(), ld.d.copy())
         return ok, L, 'Plucker.PointDir'
     n1, d1, n2, d2 = ld.planes
-    if ld.form == 'PN':
+    if ld.form in ('PN+vec4', 'list+PN'):
+        ok, pn = call(Plane.PN, ld.P.copy(), (n1 if ld.form == 'PN+vec4' else n2).copy())
+        if not ok:
+            return ok, pn, 'Plane.PN'
+        # the coefficient form of the other plane passes through the same point: n.x + d = 0 with d = -n.P
+        if ld.form == 'PN+vec4':
+            p1, p2 = pn, np.r_[n2, -float(n2 @ ld.P)]
+        else:
+            p1, p2 = np.r_[n1, -float(n1 @ ld.P)].tolist(), pn
+    elif ld.form == 'PN':
         ok, p1 = call(Plane.PN, ld.P.copy(), n1.copy())
         if not ok:
             return ok, p1, 'Plane.PN'
@@ -570,6 +581,20 @@ def fam_single(ctx, ld, L, okL, siteL, tier, seed):
         if not ok:
             ctx.fail(cid, 'Plucker.closest', 'raises:' + type(val).__name__, p, 'closest(%s) raised %r' % (f3(x), val))
             continue
+        # the query point in the other container forms a point comes in (a (3,1) column is what point() and SE3 * p return)
+        if ok and alph.thin(cid, 'quick', 4, 4):
+            for fn_, fx in (('col', x.reshape(3, 1).copy()), ('row', x.reshape(1, 3).copy()), ('list', x.tolist()), ('tuple', tuple(x.tolist()))):
+                okf, vf = call(L.closest, fx)
+                if not okf:
+                    ctx.note('form_refused', 'Plucker.closest(%s) -> %s' % (fn_, type(vf).__name__))
+                    continue
+                try:
+                    same_ = np.array_equal(vec(vf.p), vec(val.p)) and float(vf.d) == float(val.d) and float(vf.lam) == float(val.lam)
+                except Exception:
+                    same_ = False
+                if not same_:
+                    ctx.fail(cid, 'Plucker.closest', 'mismatch', dict(p, field='form', argform=fn_), 'closest() of the %s form of %s differs from the 1-D array form: %r' % (fn_, f3(x), vf))
+                    break
         try:
             cp, cd, cl = vec(val.p), float(val.d), float(val.lam)
         except Exception as e:
